@@ -170,7 +170,10 @@ def items(tier, seed):
             # one item per distance of the second match: parallel over the 16 cores
             for d in range(-2 if small else -4, (3 if small else 8) + 1):
                 out.append({'h': 'rep', 'src': si, 'l1': l1, 'Lm': Lm if not (si >= 4 and tier != 'quick') else 3,
-                            'dmin': d, 'dmax': d, 'cost': len(SOURCES[si]), 'budget': 600})
+                            'dmin': d, 'dmax': d, 'cost': len(SOURCES[si]),
+                            # thorough: 352 items; the budget bounds the tier to about half an hour
+                            # on 16 cores (items that reach it are reported as not exhausted)
+                            'budget': 600 if tier == 'quick' else 75})
     out.append({'h': 'esc', 'L': 1, 'twin': True})
     out.append({'h': 'rep', 'src': 1, 'l1': 1, 'Lm': 1, 'dmin': 0, 'dmax': 1, 'twin': True})
     return out
